@@ -19,7 +19,13 @@ TalkResp(e) == {i \in Hin(e, "Response") : e.obs.hin[i].body.t = "talk"}
 Unres(e) == "unresolved" \in DOMAIN e.op
 MAXWIRE == 1280
 
-M0 == [cfg |-> [mode |-> "ip4", filter |-> "all", maxnodes |-> 16, vote_min |-> 2],
+LK0 == [aged |-> 0,       \* virtual time passed (op "age"), ms
+        calls |-> <<>>,   \* lookups started: [call, k, pred, t0, mixed (another lookup was open at the same time), n (callbacks so far), init (the candidates it starts from: the k table entries closest to the target)]
+        lreqs |-> <<>>,   \* FINDNODE requests sent while a lookup was open: [rid, to, at, c (index of the only open lookup, 0 if ambiguous)]
+        nodesok |-> {},   \* requests that got a complete NODES answer
+        learnt |-> <<>>]  \* per request rid: the ids it reported: [rid, ids]
+M0 == [cfg |-> [mode |-> "ip4", filter |-> "all", maxnodes |-> 16, vote_min |-> 2, vote_ms |-> 3600000, par |-> 3, pto |-> 3600000, qto |-> 3600000],
+       lk |-> LK0,
        running |-> TRUE,
        talks |-> <<>>,      \* [tr, rid, from] of every TALK request object handed to the application
        tresp |-> <<>>,      \* every TALK response handed to the transport: [rid, to, payload]
@@ -68,7 +74,7 @@ MonStep(mm, e) ==
       newReqs == [i \in 1..Cardinality(Hin(e, "Request")) |->
                      LET x == obs.hin[SetToSeq(Hin(e, "Request"))[i]] IN
                      [rid |-> x.rid, to |-> x.to, t |-> x.body.t, ds |-> IF x.body.t = "findnode" THEN x.body.ds ELSE <<>>,
-                      lookup |-> op.o \in {"lookup", "response_in", "fail", "poke", "advance"}]]
+                      lookup |-> op.o \in {"lookup", "response_in", "fail", "poke", "advance", "age", "end", "honest_reply"}]]
       \* NODES packets of this step, as abstract records [d, self, n]
       pks == IF op.o = "response_in" /\ ~Unres(e) /\ op.body.t = "nodes"
              THEN <<[total |-> op.body.total, recs |-> [i \in 1..Len(op.body.recs) |-> [d |-> op.dists[i], self |-> op.body.recs[i] = "L", n |-> op.body.recs[i]]]]>>
@@ -89,8 +95,29 @@ MonStep(mm, e) ==
       eligible == isPong /\ (needMore \/ \E i \in 1..Len(mm.table) : mm.table[i][1] = op.from /\ mm.table[i][3] = "C" /\ mm.table[i][4] = "O")
       votes0 == IF op.o = "age" THEN [i \in 1..Len(mm.votes) |-> [mm.votes[i] EXCEPT !.age = @ + op.ms]] ELSE mm.votes
       votes1 == IF eligible THEN SelectSeq(votes0, LAMBDA v : ~(v.voter = op.from /\ IsV6(v.sock) = IsV6(op.vote))) \o <<[voter |-> op.from, sock |-> op.vote, age |-> 0]>> ELSE votes0
-  IN [mm EXCEPT !.running = @ /\ op.o # "shutdown", !.xs = xs2, !.votes = votes1,
-                !.answered = IF op.o \in {"response_in", "fail"} /\ ~Unres(e) /\ ~(op.o = "response_in" /\ op.body.t = "nodes" /\ op.body.total > 1) THEN @ \cup {op.req} ELSE @,
+      \* ---- lookups
+      lk == mm.lk
+      aged1 == lk.aged + (IF op.o = "age" THEN op.ms ELSE 0)
+      openBefore == {i \in 1..Len(lk.calls) : lk.calls[i].n = 0}
+      calls1 == IF op.o = "lookup" /\ "call" \in DOMAIN op
+                THEN [i \in 1..Len(lk.calls) |-> IF i \in openBefore THEN [lk.calls[i] EXCEPT !.mixed = TRUE] ELSE lk.calls[i]]
+                     \o <<[call |-> op.call, k |-> Get(op, "k", 16), pred |-> Get(op, "pred", FALSE) # FALSE, t0 |-> aged1, mixed |-> openBefore # {}, n |-> 0,
+                           init |-> SeqSet(Get(op, "closest", <<>>))]>>
+                ELSE lk.calls
+      open1 == {i \in 1..Len(calls1) : calls1[i].n = 0}
+      owner == IF Cardinality(open1) = 1 THEN (CHOOSE i \in open1 : TRUE) ELSE 0
+      lreqs1 == lk.lreqs \o SelectSeq([i \in 1..Len(newReqs) |-> [rid |-> newReqs[i].rid, to |-> newReqs[i].to, at |-> aged1, c |-> owner, fn |-> newReqs[i].t = "findnode" /\ newReqs[i].lookup]],
+                                       LAMBDA r : r.fn /\ open1 # {})
+      complete == (op.o = "honest_reply" /\ ~Unres(e)) \/ (op.o = "response_in" /\ ~Unres(e) /\ op.body.t = "nodes" /\ op.body.total <= 1)
+      nodesok1 == IF complete /\ op.req \notin mm.answered THEN lk.nodesok \cup {op.req} ELSE lk.nodesok
+      learnt1 == IF complete /\ op.req \notin mm.answered
+                 THEN Append(lk.learnt, [rid |-> op.req, ids |-> UNION {{RecOwner(pks[k].recs[i].n) : i \in 1..Len(pks[k].recs)} : k \in 1..Len(pks)}])
+                 ELSE lk.learnt
+      dn == obs.done
+      calls2 == [i \in 1..Len(calls1) |-> [calls1[i] EXCEPT !.n = @ + Cardinality({j \in 1..Len(dn) : dn[j].call = calls1[i].call})]]
+      lk1 == [aged |-> aged1, calls |-> calls2, lreqs |-> lreqs1, nodesok |-> nodesok1, learnt |-> learnt1]
+  IN [mm EXCEPT !.running = @ /\ op.o # "shutdown", !.xs = xs2, !.votes = votes1, !.lk = lk1,
+                !.answered = IF op.o \in {"response_in", "fail", "honest_reply"} /\ ~Unres(e) /\ ~(op.o = "response_in" /\ op.body.t = "nodes" /\ op.body.total > 1) THEN @ \cup {op.req} ELSE @,
                 !.offered = IF op.o \in {"established", "add_enr"} THEN @ \cup {op.id} ELSE @,
                 !.offrecs = IF op.o \in {"established", "add_enr"} THEN @ \cup {op.rec} ELSE @,
                 !.netrecs = @ \cup UNION {{pks[k].recs[i].n : i \in 1..Len(pks[k].recs)} : k \in 1..Len(pks)},
@@ -196,14 +223,49 @@ C17Viol(mm, m2, e) ==
   (IF e.obs.local.udp4 # mm.local.udp4 THEN C17Change(mm, m2, e, mm.local.udp4, e.obs.local.udp4, FALSE) ELSE {})
   \cup (IF e.obs.local.udp6 # mm.local.udp6 THEN C17Change(mm, m2, e, mm.local.udp6, e.obs.local.udp6, TRUE) ELSE {})
 
-MonViol(mm, m2, e) == C20Viol(mm, m2, e) \cup C14Viol(mm, e) \cup C11Viol(mm, m2, e) \cup C12Viol(mm, m2, e) \cup C17Viol(mm, m2, e)
+\* ------------------------------------------------------------------ C09 / C10 at the service: lookups (Discv5::find_node / find_node_predicate)
+\* A lookup's requests are attributed to it only while it is the only open lookup (c # 0, ~mixed).
+HasV4(rec) == ShapeOf(rec) \in {"v4", "both", "mis", "mark", "big"}
+StrictInc(q) == \A i \in 1..Len(q) - 1 : q[i] < q[i + 1]
+LkViol(mm, m2, e) ==
+  LET op == e.op  lk == mm.lk  k2 == m2.lk  dn == e.obs.done
+      Mine(c) == {j \in 1..Len(k2.lreqs) : k2.lreqs[j].c = c}
+      CallIdx(name) == IF \E i \in 1..Len(k2.calls) : k2.calls[i].call = name THEN CHOOSE i \in 1..Len(k2.calls) : k2.calls[i].call = name ELSE 0
+  IN
+  (IF \E i \in 1..Len(k2.calls) : k2.calls[i].n >= 2 /\ (i > Len(lk.calls) \/ lk.calls[i].n < k2.calls[i].n) THEN {"C09.CallbackTwice"} ELSE {})
+  \cup (IF op.o = "end" /\ \E i \in 1..Len(k2.calls) : k2.calls[i].n = 0 THEN {"C09.NoCallback"} ELSE {})
+  \cup (IF \E i \in 1..Len(k2.calls) : ~k2.calls[i].mixed /\ \E a, b \in Mine(i) : a < b /\ b > Len(lk.lreqs) /\ k2.lreqs[a].to = k2.lreqs[b].to
+        THEN {"C09.SamePeerTwice"} ELSE {})
+  \* until `par` peers have answered the lookup cannot have stalled: no more than `par` of its requests are in flight (sent, no outcome
+  \* reported, per-peer timeout not elapsed)
+  \cup (IF \E i \in 1..Len(k2.calls) : ~k2.calls[i].mixed /\ k2.calls[i].n = 0 /\
+             Cardinality({j \in Mine(i) : k2.lreqs[j].rid \in k2.nodesok}) < mm.cfg.par /\
+             Cardinality({j \in Mine(i) : k2.lreqs[j].rid \notin m2.answered /\ k2.aged - k2.lreqs[j].at < mm.cfg.pto}) > mm.cfg.par
+        THEN {"C09.InFlight"} ELSE {})
+  \cup UNION {LET d == dn[x]  i == CallIdx(d.call) IN
+              IF i = 0 \/ ~d.ok THEN {} ELSE
+              LET c == k2.calls[i]
+                  owners == [y \in 1..Len(d.res) |-> RecOwner(d.res[y])]
+                  answeredBy == {k2.lreqs[j].to : j \in {j \in Mine(i) : k2.lreqs[j].rid \in k2.nodesok}}
+                  contacted == {k2.lreqs[j].to : j \in Mine(i)}
+                  learnt == (c.init \cup UNION {k2.learnt[y].ids : y \in {y \in 1..Len(k2.learnt) : \E j \in Mine(i) : k2.lreqs[j].rid = k2.learnt[y].rid}}) \ {"L", "?"}
+              IN (IF Cardinality(SeqSet(owners)) # Len(owners) THEN {"C10.Duplicate"} ELSE {})
+                 \cup (IF Len(d.res) > c.k THEN {"C10.TooMany"} ELSE {})
+                 \cup (IF ~StrictInc(d.ranks) THEN {"C10.Order"} ELSE {})
+                 \cup (IF c.pred /\ \E y \in 1..Len(d.res) : ~HasV4(d.res[y]) THEN {"C10.PredicateMismatch"} ELSE {})
+                 \cup (IF ~c.mixed /\ \E y \in 1..Len(owners) : owners[y] \notin answeredBy THEN {"C10.NotAnswered"} ELSE {})
+                 \cup (IF ~c.mixed /\ Len(d.res) < c.k /\ k2.aged - c.t0 < mm.cfg.qto /\ \E p \in learnt : p \notin contacted THEN {"C10.Incomplete"} ELSE {})
+             : x \in 1..Len(dn)}
+
+MonViol(mm, m2, e) == LkViol(mm, m2, e) \cup C20Viol(mm, m2, e) \cup C14Viol(mm, e) \cup C11Viol(mm, m2, e) \cup C12Viol(mm, m2, e) \cup C17Viol(mm, m2, e)
 
 Next ==
   /\ l <= Len(Rec) /\ l' = l + 1
   /\ LET e == Rec[l] IN
      IF e.op.o = "reset"
      THEN /\ m' = [M0 EXCEPT !.cfg = [mode |-> Get(e.op, "mode", "ip4"), filter |-> Get(e.op, "filter", "all"),
-                                       maxnodes |-> Get(e.op, "maxnodes", 16), vote_min |-> Get(e.op, "vote_min", 2), vote_ms |-> 1000 * Get(e.op, "vote_dur", 3600)],
+                                       maxnodes |-> Get(e.op, "maxnodes", 16), vote_min |-> Get(e.op, "vote_min", 2), vote_ms |-> 1000 * Get(e.op, "vote_dur", 3600),
+                                       par |-> Get(e.op, "par", 3), pto |-> 1000 * Get(e.op, "peer_timeout", 3600), qto |-> 1000 * Get(e.op, "query_timeout", 3600)],
                              !.local = e.obs.local]
           /\ t' = T0 /\ UNCHANGED <<viols, sr>>
      ELSE /\ m' = MonStep(m, e)
